@@ -12,6 +12,7 @@ def dynamic_overlap2(ctx, rows):
     if not may:
         return False
     names = ', '.join(sorted({n for n, _ in rows}))
+    may = [m for m in may if any(n in m[0] for n, _ in rows)] or may     # prefer a run below one of the offending rows
     c, g, l = may[0]
     ctx.violation(f'C02: regenerated fact rows violate the predicate ({names}) and the callbacks of one observer overlap (max inside = {R.parse_res(g).get("maxinside")}) '
                   f'with every input driven from its own goroutine ({len(may)} set-ups)',
@@ -23,6 +24,7 @@ def dynamic_overlap2(ctx, rows):
 def parts(ctx):
     rows = R.run_kind(ctx, 'overlap', shards=4)
     confirmed = 0
+    ctx.overlap2_may = []
     for c, g, l in rows:
         ctx.evaluations += 1
         gd, ld = R.parse_res(g), R.parse_res(l)
@@ -39,10 +41,10 @@ def parts(ctx):
             ctx.traces_validated += 1
             if ld.get('expect') == 'may-overlap' and gd.get('observed') == 'overlap':
                 confirmed += 1
+                ctx.overlap2_may.append((c, g, l))
     # every multi-feeder operator with all its inputs driven from goroutines of their own (kind=overlap2): the
     # model's expectation comes from the regenerated rows; an overlap where the rows say may-overlap is the
     # concrete input for a failed table decision (recorded for the search below)
-    ctx.overlap2_may = []
     for c, g, l in R.run_kind(ctx, 'overlap2', shards=6):
         ctx.evaluations += 1
         gd, ld = R.parse_res(g), R.parse_res(l)
